@@ -144,6 +144,13 @@ func c12RunCase(w *vx.W, envs map[string]c12Env, x c12Case) {
 		}
 	}
 	world.drain(w)
+	// model-checking counters: every history is distinct by construction
+	// (one explored history = one state of the stateless search), every
+	// operation application was compared with the model.
+	ctx := w.Ctx()
+	ctx.AddStates(1)
+	ctx.AddTransitions(int64(len(x.Ops)))
+	ctx.AddTraces(1)
 	if world.failed {
 		return
 	}
@@ -182,10 +189,14 @@ func TestVerif_C12(t *testing.T) {
 		// RFC 7540 priority tree: explicit-state search with deduplication on
 		// the scheduler's private state (see c12_tree_test.go).
 		c.Rule("tree/<cfg>: breadth-first search over open/close/AdjustStream (ids 1,3,5 and the never-opened 7; every dependency incl. the root, exclusive or not; weights 15/255/15/0), HEADERS (at most one queued per stream) and Pop on the RFC 7540 scheduler (default, retention 0, retention 1), states deduplicated on the complete private scheduler state (tree, sibling order, weights, closed/idle lists, queues) plus the model; every state is finished by pushing HEADERS on every open stream and draining under the same oracle")
-		treeDepth := vx.Pick(c, 4, 7)
+		treeDepth := vx.Pick(c, 4, 8)
 		c.Note("tree.depth", treeDepth)
 		for _, sched := range []string{"rfc7540", "rfc7540-retain0", "rfc7540-retain1"} {
-			c12TreeSearch(c, sched, treeDepth, 4_000_000)
+			d := treeDepth
+			if sched == "rfc7540-retain0" {
+				d += 3 // no retained nodes: a much smaller state space
+			}
+			c12TreeSearch(c, sched, d, 4_000_000)
 		}
 	})
 }
